@@ -49,7 +49,7 @@ const (
 	c27WLHost   = "wallet.example:8443"
 	c27User     = "a"
 	c27Pass     = "bc"
-	goldenTable = "/verif/spec/api_routes.json"
+	goldenTable = "spec/api_routes.json" // relative to engine.Root
 )
 
 var c27Methods = []string{"GET", "POST", "PUT", "DELETE", "HEAD", "OPTIONS", "PATCH"}
@@ -920,7 +920,7 @@ func c27Worker(args []string) {
 
 func c27RunShard(job c27Job) *c27Result {
 	res := newC27Result()
-	g, err := apimodel.Load(goldenTable)
+	g, err := apimodel.Load(filepath.Join(engine.Root, goldenTable))
 	if err != nil {
 		res.Broken = err.Error()
 		return res
@@ -973,7 +973,7 @@ func c27(r *engine.Run) {
 			os.Remove(f) // replay files of an earlier run of this check
 		}
 	}
-	g, err := apimodel.Load(goldenTable)
+	g, err := apimodel.Load(filepath.Join(engine.Root, goldenTable))
 	if err != nil {
 		r.Broken("golden table: %v", err)
 		r.Finish(nil)
